@@ -62,8 +62,12 @@ def shards(tier, seed):
         out.append({"kind": "polluted", "hi": B2 + 500})
         out.append({"kind": "shuffled", "n": 60000})
         out.append({"kind": "threads", "rounds": 3})
+        out.append({"kind": "cold", "attempts": 120})
+        out.append({"kind": "enc_random", "n": 40000, "part": 77, "_pyflags": ["-O"]})
+        out.append({"kind": "dec_random", "n": 40000, "_pyflags": ["-OO"]})
     else:
         out.append({"kind": "threads", "rounds": 12})
+        out += [{"kind": "cold", "attempts": 400, "part": p} for p in range(4)]
         step = B3 // 64 + 1
         for lo in range(0, B3 + 1, step):
             out.append({"kind": "enc_range", "lo": lo, "hi": min(B3 + 1000, lo + step)})
@@ -319,7 +323,7 @@ def run(shard, rec, tier, seed):
             r = random.Random("C07-thr-%d-%d" % (rnd, tid))
             lo, hi = [(0, 253), (253, B2), (B2, B3), (B3, B4)][tid % 4]
             out = []
-            for _ in range(3000):
+            for _ in range(3000 if rnd < 100 else 250):
                 n = r.randrange(lo, hi)
                 e = ns.numbers.encode_number(n)
                 d = ns.numbers.decode_number(e)
@@ -329,6 +333,9 @@ def run(shard, rec, tier, seed):
                     break
             return out
         found, errors = thr.hammer(work, 4, shard["rounds"])
+        f2, e2 = thr.hammer(work, 4, 1, inject=os.path.join(stage.REPO, "src", "eolib", "data"), first_round=100)
+        found, errors = found + f2, errors + e2
+        rec.count("line-events-with-yield-injection", getattr(thr.hammer, "lines_with_injection", 0))
         for e in errors:
             rec.violation("encode-raises", "a call from a worker thread raised: " + e, {"threads": 4})
         for mech, msg, case in found[:3]:
@@ -336,6 +343,31 @@ def run(shard, rec, tier, seed):
         rec.count("calls-from-concurrent-threads", calls[0])
         rec.case(("threads", shard["rounds"]), n=calls[0])
         rec.count("roundtrip", calls[0])
+    elif kind == "cold":
+        # the very first calls of a process come from several threads at once
+        from vf.mon import threads as thr
+
+        samples = [0, 1, 252, 253, 254, 64008, 64009, 70000, B3 - 1, B3, B3 + 1, 12345678, B4 - 1, 4092152065 % B4]
+
+        def work(ns2, tid, attempt):
+            out = []
+            for k in range(6):
+                n = samples[(tid * 3 + k + attempt) % len(samples)]
+                e = ns2.numbers.encode_number(n)
+                d = ns2.numbers.decode_number(ref.encode(n))
+                if bytes(e) != ref.encode(n) or d != n:
+                    out.append(("differential-encode", "first use from 8 threads: encode_number(%d) = %s (reference %s), decode_number(reference) = %r" % (n, bytes(e).hex(), ref.encode(n).hex(), d), {"n": n, "threads": 8}))
+                    break
+            return out
+        found, errors = thr.cold(work, shard["attempts"])
+        for e in errors[:2]:
+            rec.violation("encode-raises", "first use from 8 threads raised: " + e, {"threads": 8})
+        for mech, msg, case in found[:2]:
+            rec.violation(mech, msg, case)
+        # the namespace of this worker was replaced by the fresh imports above; nothing else runs in this shard
+        rec.count("cold-start-attempts", shard["attempts"])
+        rec.case(("cold", shard.get("part", 0)), n=shard["attempts"])
+        rec.count("roundtrip", shard["attempts"])
     elif kind == "polluted":
         # hostile history: out-of-domain calls first (a codec with hidden shared state - caches, tables -
         # must not let them change what in-range numbers encode to afterwards), then the in-range sweep
